@@ -971,6 +971,44 @@ func (a *Analysis) guarded(v ssa.Value, at ssa.Instruction) (bool, string) {
 			}
 		}
 	}
+	// a value read THROUGH the expression was found to be non-zero: x.GetA().GetB() != "" (generated getters are nil-safe
+	// and return the zero value for a nil receiver) or x.A.B != "" (the read itself went through x.A) implies x.A != nil
+	if usePath {
+		for _, ce := range e5path.DominatingConds(at.Block()) {
+			bo, ok := ce.Cond.(*ssa.BinOp)
+			if !ok || (bo.Op != token.NEQ && bo.Op != token.EQL) {
+				continue
+			}
+			var tested ssa.Value
+			isZero := func(x ssa.Value) bool {
+				c, ok := x.(*ssa.Const)
+				if !ok {
+					return false
+				}
+				if c.Value == nil {
+					return true
+				}
+				switch c.Value.Kind() {
+				case constant.String:
+					return constant.StringVal(c.Value) == ""
+				case constant.Int:
+					return constant.Sign(c.Value) == 0
+				}
+				return false
+			}
+			if isZero(bo.Y) {
+				tested = bo.X
+			} else if isZero(bo.X) {
+				tested = bo.Y
+			}
+			if tested == nil || (bo.Op == token.NEQ) != ce.Branch {
+				continue
+			}
+			if tp := e5path.AccessPath(tested); strings.HasPrefix(tp, path+".") && !a.pathStoredBetween(path, ce.If, at) {
+				return true, "D3 a value read through " + path + " (" + tp + ") was found non-zero: nil-safe getters give the zero value for a nil receiver"
+			}
+		}
+	}
 	// comma-ok forms: v is Extract #0 of a lookup/assert whose #1 is tested true
 	if ex, ok := v.(*ssa.Extract); ok && ex.Index == 0 {
 		for _, ce := range e5path.DominatingConds(at.Block()) {
